@@ -39,6 +39,7 @@ def run(ctx):
     kinds(ctx, facts)
     symmetry(ctx, facts)
     generate_vis(ctx, facts)
+    forwarders(ctx, facts)
     ctx.assume("AES / HKDF behave as ideal primitives; absence of (step, index) reuse over all executions is not decided")
 
 
@@ -242,3 +243,70 @@ def generate_vis(ctx, facts):
     dom = b.dominators()
     oku = bool(ui) and bool(enc) and all(flow.dominates(dom, ui[0][0], x) for x, _ in enc)
     ctx.ob("WHO-generate", "use_index-before-encrypt", oku, "the index is registered as used before the value is produced (debug builds)" if oku else "use_index is missing / after the encryption", site_of(b))
+
+
+def forwarders(ctx, facts):
+    """Context wrappers (Upgraded / DZKPUpgraded / malicious / semi-honest over Base) forward each accessor to the
+    SAME accessor of the wrapped context.  A forwarder that calls a different sibling trait method of the crate -
+    e.g. cross_shard_prss() answered with inner.prss() - type-checks when the return types agree and hands out the
+    wrong randomness (per-shard instead of cross-shard), which no per-shard check notices."""
+    ctx.rule("WHO-forward: every pure forwarding method of a protocol::context wrapper (single call on a field of self whose result is returned) that calls a crate trait method calls the method of its own name; cross_shard_prss/prss forwarders are required to exist for every sharded wrapper")
+    n = 0
+    names = {}
+    for b in sorted(facts.non_test_bodies(), key=lambda x: x.path):
+        if not b.file.startswith("ipa-core/src/protocol/context/") or b.kind != "AssocFn" or not b.path.startswith("<"):
+            continue
+        calls = list(b.calls())
+        if len(calls) != 1:
+            continue
+        bb, t = calls[0]
+        if not t["args"] or t["d"] != [0]:
+            continue
+        e = flow.expr_of(b, t["args"][0])
+        if not (e[0] == "arg" and e[1] == 1 and len(e) >= 3):
+            continue
+        fn, res, info = F.callee(t)
+        fn = fn or ""
+        if fn.startswith(("std::", "core::", "alloc::")) or not (res or info.get("self")):
+            continue                       # std trait or inherent helper: not a sibling accessor
+        own, tgt = b.path.split("::")[-1], fn.split("::")[-1]
+        n += 1
+        names[own] = names.get(own, 0) + 1
+        ctx.count(bodies=1, calls=1)
+        ctx.ob("WHO-forward", b.path, own == tgt, f"forwards to {tgt}" if own == tgt else f"`{own}` is answered with the wrapped context's `{tgt}`: a different accessor of the same shape (for prss/cross_shard_prss: per-shard randomness handed out as cross-shard randomness or vice versa)", site_of(b, bb))
+    ctx.floor("WHO-forward", "forwarding accessors", n, 50)
+    ctx.floor("WHO-forward", "cross_shard_prss forwarders", names.get("cross_shard_prss", 0), 5)
+    ctx.floor("WHO-forward", "prss forwarders", names.get("prss", 0), 4)
+    # terminal accessors: which PRSS endpoint each one opens, and at which step
+    BASE = "<protocol::context::Base<'_, B> as protocol::context::Context>::"
+    for path, want, what in ((BASE + "prss", "inner.prss", "per-shard"), (BASE + "prss_rng", "inner.prss", "per-shard"),
+                             ("<protocol::context::Base<'_, sharding::Sharded> as protocol::context::ShardedContext>::cross_shard_prss", "cross_shard_prss", "cross-shard")):
+        b = facts.bodies.get(path)
+        if b is None:
+            ctx.missing("WHO-forward", path)
+            continue
+        ctx.count(bodies=1)
+        eps = [(bb, t) for bb, t in b.calls() if re.search(r"prss::Endpoint::(indexed|sequential)$", F.callee(t)[0] or "")]
+        if len(eps) != 1:
+            ctx.missing("WHO-forward", path + ": single Endpoint::indexed/sequential call")
+            continue
+        bb, t = eps[0]
+        e0 = flow.expr_of(b, t["args"][0])
+        src = ".".join(str(x) for x in flow.strip_casts(e0)[2:]) if flow.strip_casts(e0)[0] == "arg" else str(e0)
+        if want == "inner.prss":
+            ok = flow.strip_casts(e0)[0] == "arg" and tuple(flow.strip_casts(e0)[2:]) == ("inner", "prss")
+        else:
+            ok = "ShardBinding::cross_shard_prss" in src and "'sharding'" in src
+        g = str(flow.expr_of(b, t["args"][1]))
+        okg = "Context::gate" in g or "'gate'" in g
+        short = path.split("::")[-1]
+        ctx.ob("WHO-forward", f"Base::{short}:endpoint", ok, f"opens the {what} endpoint" if ok else f"Base::{short} opens `{src[:80]}`, not the {what} PRSS endpoint", site_of(b, bb))
+        ctx.ob("WHO-forward", f"Base::{short}:step", okg, "indexed by the context's own gate" if okg else "the PRSS endpoint is not indexed by the context's current gate (step separation lost)", site_of(b, bb))
+    sb = facts.bodies.get("<sharding::Sharded as sharding::ShardBinding>::cross_shard_prss")
+    if sb is None:
+        ctx.missing("WHO-forward", "<Sharded as ShardBinding>::cross_shard_prss")
+    else:
+        ctx.count(bodies=1)
+        e = str(flow.expr_of(sb, {"cp": [0]}))
+        ok = "('arg', 1, 'prss')" in e
+        ctx.ob("WHO-forward", "Sharded::cross_shard_prss:field", ok, "hands out the shared (cross-shard) endpoint stored in Sharded.prss" if ok else "Sharded::cross_shard_prss does not return its own cross-shard endpoint", site_of(sb))
